@@ -5,7 +5,7 @@ C07 — model of `etl::variant` (include/etl/_variant/variant.hpp), `etl::visit`
 (include/etl/_utility/swap.hpp), and of `etl::optional` (= `variant<nullopt_t,T>`, index 1 = engaged,
 include/etl/_optional/optional.hpp), `etl::optional<T&>` (a nullable pointer) and `etl::expected`
 (= `variant<T,E>`, index 0 = value, include/etl/_expected/expected.hpp), *as they are after the
-`fix:` commits of branch fix-c07* (see known_findings.d/C07.json).
+`fix:` commits of the branches fix-c07, fix-c07b and fix-c07r* (see known_findings.d/C07.json).
 
 A variant object is its `_index` and the value of the active union member.  Every access to a
 union member goes through `getAt` (the `TETL_PRECONDITION(I == index())` of `operator[]` /
@@ -159,6 +159,48 @@ def assignSelf (c : Cfg) (mv : Bool) (v : V α) : Except Err (V α) :=
       if li = ri then .ok v
       else (destroy c v).map fun _ => ⟨ri, r⟩
 
+/-! ### converting construction / assignment from a value: `variant(T&&)`, `operator=(T&&)` -/
+
+/-- what the argument `forward<T>(t)` is to the selected alternative `T_j` -/
+inductive Arg where
+  | conv   -- of another type: `T_j`'s converting constructor makes a `T_j` from it (the model is given that value)
+  | lval   -- an lvalue `T_j`
+  | rval   -- an rvalue `T_j`
+  deriving Repr, DecidableEq, Inhabited
+
+/-- `T_j(forward<T>(t))`: (the new element, the argument afterwards) -/
+def consArg (el : Elem α) : Arg → α → α × α
+  | .conv, x => (x, x)
+  | .lval, x => (el.cc x, x)
+  | .rval, x => el.mc x
+
+/-- `d = forward<T>(t)` for an element `d` of type `T_j`: (`d` afterwards, the argument afterwards).  An argument of
+    another type is converted to a temporary `T_j`, which is move assigned. -/
+def asgArg (el : Elem α) : Arg → α → α → α × α
+  | .conv, d, x => ((el.ma d x).1, x)
+  | .lval, d, x => (el.ca d x, x)
+  | .rval, d, x => el.ma d x
+
+/-- `variant::operator=(T&&)` with `T_j` the selected alternative.  `direct`: the member template takes part in
+    overload resolution (`is_assignable_v<T_j&, T> and is_assignable_v<T_j, T>`: class alternatives) —
+    `if (index() == j) (*this)[index_v<j>] = forward<T>(t); else emplace<T_j>(forward<T>(t));`.
+    Otherwise (scalar alternatives) the argument is converted by the converting constructor
+    (`variant(in_place_type<T_j>, forward<T>(t))`) to a temporary variant that is move assigned.
+    Returns (`*this`, the argument afterwards). -/
+def convAssign (c : Cfg) (el : Elem α) (direct : Bool) (cat : Arg) (v : V α) (j : Nat) (x : α) : Except Err (V α × α) :=
+  if direct then
+    if v.idx = j then (getAt v j).map fun cur => ({ v with val := (asgArg el cat cur x).1 }, (asgArg el cat cur x).2)
+    else (emplace c v j (consArg el cat x).1).map fun v' => (v', (consArg el cat x).2)
+  else
+    if j < c.n then (assign c el true v ⟨j, (consArg el cat x).1⟩).map fun r => (r.1, (consArg el cat x).2)
+    else .error (.pre "variant(in_place_type<T>): T is one of Ts")
+
+/-- `variant(T&&)`: `variant(in_place_type<T_j>, forward<T>(t))`, i.e. `_index(j), _union(index_v<j>, forward<T>(t))`.
+    Returns (the new object, the argument afterwards). -/
+def convCtor (c : Cfg) (el : Elem α) (cat : Arg) (j : Nat) (x : α) : Except Err (V α × α) :=
+  if j < c.n then .ok (⟨j, (consArg el cat x).1⟩, (consArg el cat x).2)
+  else .error (.pre "variant(in_place_type<T>): T is one of Ts")
+
 /-! ### histories over a few live objects ("slots") -/
 
 inductive Op (α : Type) where
@@ -167,6 +209,9 @@ inductive Op (α : Type) where
   | assign (k j : Nat) (mv : Bool)     -- slot k = slot j / = move(slot j)
   | ctor (k j : Nat) (mv : Bool)       -- slot k is replaced by a copy / move construction from slot j
   | swap (k j : Nat)                   -- etl::swap(slot k, slot j)
+  | conv (k j : Nat) (direct asg : Bool) (cat : Arg) (x : α)
+      -- `asg`: slot k = forward<T>(t) (converting assignment, selected alternative j, see `convAssign`);
+      -- otherwise slot k is replaced by `variant(forward<T>(t))` (converting constructor; old object destroyed)
   deriving Repr
 
 def put (st : List (V α)) (k : Nat) (v : V α) : Except Err (List (V α)) :=
@@ -232,6 +277,15 @@ def step (c : Cfg) (el : Elem α) (st : List (V α)) : Op α → Except Err (Lis
       let (a', b') ← swap2 c el a b
       let st1 ← put st k a'
       put st1 j b'
+  | .conv k j direct asg cat x => do
+    let v ← rd st k
+    if asg then
+      let (v', _) ← convAssign c el direct cat v j x
+      put st k v'
+    else
+      let (nw, _) ← convCtor c el cat j x
+      destroy c v
+      put st k nw
 
 def run (c : Cfg) (el : Elem α) : List (V α) → List (Op α) → Except Err (List (V α))
   | st, [] => .ok st
@@ -358,6 +412,21 @@ def andThen {ρ : Type} (v : V α) (f : α → ρ) : Except Err (Option ρ) :=
     the result, or `none` when `f` is called instead -/
 def orElse (v : V α) : Except Err (Option α) := if hasValue v then (deref v).map some else .ok none
 
+/-- `value_or(d) const&` (`mv = false`: `has_value() ? **this : static_cast<T>(forward<U>(d))`) and `value_or(d) &&`
+    (`mv = true`: `has_value() ? move(**this) : ...`): the returned prvalue - copy / move constructed from the contained
+    value, or move constructed from the argument temporary - and the optional afterwards -/
+def valueOrCat (el : Elem α) (mv : Bool) (v : V α) (d : α) : Except Err (α × V α) :=
+  if hasValue v then
+    (deref v).map fun x => if mv then ((el.mc x).1, { v with val := (el.mc x).2 }) else (el.cc x, v)
+  else .ok ((el.mc d).1, v)
+
+/-- `or_else(f) const&` (`*this ? *this : f()`) and `or_else(f) &&` (`*this ? move(*this) : f()`): the contained value
+    of the returned optional (copy / move constructed), or `none` when `f` is called instead; and the optional afterwards -/
+def orElseCat (el : Elem α) (mv : Bool) (v : V α) : Except Err (Option α × V α) :=
+  if hasValue v then
+    (deref v).map fun x => if mv then (some (el.mc x).1, { v with val := (el.mc x).2 }) else (some (el.cc x), v)
+  else .ok (none, v)
+
 /-! ### expected = variant<T, E>, index 0 = value -/
 
 /-- `has_value()`: `_u.index() == 0` -/
@@ -371,6 +440,12 @@ def expError (v : V α) : Except Err α := if expHas v then .error (.pre "expect
 
 /-- `value_or(d)`: `static_cast<bool>(*this) ? **this : static_cast<T>(forward<U>(d))` -/
 def expValueOr (v : V α) (d : α) : Except Err α := if expHas v then expDeref v else .ok d
+
+/-- `value_or(d) const&` / `&&` with the copy / move construction of the returned prvalue, and the expected afterwards -/
+def expValueOrCat (el : Elem α) (mv : Bool) (v : V α) (d : α) : Except Err (α × V α) :=
+  if expHas v then
+    (expDeref v).map fun x => if mv then ((el.mc x).1, { v with val := (el.mc x).2 }) else (el.cc x, v)
+  else .ok ((el.mc d).1, v)
 
 /-- `and_then(f)`: `if (has_value()) return invoke(f, **this); return U(unexpect, error());` — `onErr` is what the
     propagated error becomes (a copy / move of it inside the new expected) -/
